@@ -155,6 +155,8 @@ let show_request = function
   | ReqBody (v, x) -> "v:" ^ str v ^ "(" ^ show_val x ^ ")"
 
 let opt_hex s = if s = "-" then [] else bytes_of_hex s
+let rec lookup_z (k : char list) (l : (char list * z) list) : z option =
+  match l with [] -> None | (k', v) :: r -> if k = k' then Some v else lookup_z k r
 
 (* ---- dump of the specification environment, read by the Python case generators *)
 let rec show_ty (t : ty) : string =
@@ -296,6 +298,26 @@ let () =
                    | Ok b -> "ok " ^ hex_of_bytes b
                    | Panic s -> "panic"
                    | _ -> "err")
+               | "ident", [ kind; arg ] -> (
+                   let named l = match lookup_z (cl arg) l with Some z -> "ok " ^ hex_of_z z | None -> "unknown-name" in
+                   match kind with
+                   | "credprotect" -> (
+                       match match_u8 tb.t_credprotect_try (z_of_hex arg) with
+                       | Some (MB_Var v) -> "ok " ^ str v
+                       | Some (MB_Err e) -> "err " ^ str e
+                       | _ -> "broken")
+                   | "control" -> (
+                       match match_u8 tb.t_control_try (z_of_hex arg) with
+                       | Some (MB_Var v) -> (
+                           match lookup_z v tb.t_control_codes with
+                           | Some z -> "ok " ^ str v ^ " " ^ hex_of_z z
+                           | None -> "broken")
+                       | Some (MB_Err e) -> "err " ^ str e
+                       | _ -> "broken")
+                   | "status" -> named tb.t_err_codes
+                   | "perm" -> named tb.t_permissions
+                   | "flag" -> named tb.t_flags
+                   | _ -> "unknown-op")
                | "optab", [ b ] ->
                    let z = z_of_hex b in
                    let o = op_of_u8 tb z in
